@@ -69,7 +69,9 @@ def exc_class(e):
 
 # --------------------------------------------------------------------------- model mapping
 KIND = {'drop': 'KTransport', 'drop_body': 'KTransport', '500': 'K5xx', '503': 'K5xx', '500_after': 'K5xx', '429': 'K429',
-        '401': 'K401', 'expire': 'K401', '403': 'K403', 'oserror': 'KOs'}
+        '401': 'K401', 'expire': 'K401', '403': 'K403', 'oserror': 'KOs',
+        # B2 faults that stick to one upload URL / token pair: a client that asks for a fresh pair per try meets them once
+        'expire_upload_tokens': 'K401', 'sick_pod': 'K5xx'}
 FL = {'local': 'FlLocal', 's3c': 'FlS3', 'b2': 'FlB2'}
 
 
@@ -201,6 +203,29 @@ async def _call(backend, case, data):
     return res
 
 
+async def _prelude(backend, case):
+    """Operations of the same client that precede the faulted one (no fault armed): they warm whatever the adapter
+    keeps between calls (authorisation, bucket, upload URL, directories)."""
+    last = None
+    for i, pm in enumerate(case.get('prelude', [])):
+        name = f'data/pre/p{i}'
+        data = payload(3 + i, 11 + i)
+        if pm == 'upload':
+            await backend.upload(name, data); last = name
+        elif pm == 'upload_stream':
+            inner = io.BytesIO(data)
+            w, _ = wrap_reader(inner, len(data))
+            with w:
+                await backend.upload_stream(name, w, len(data), case['chunk'])
+            last = name
+        elif pm == 'download' and last is not None:
+            await backend.download(last)
+        elif pm == 'list':
+            [x async for x in backend.list_files('data/pre/')]
+        elif pm == 'delete' and last is not None:
+            await backend.delete(last); last = None
+
+
 def run_http(case):
     backend_kind, m = case['backend'], case['method']
     data = payload(case['size'])
@@ -225,6 +250,11 @@ def run_http(case):
         if download or case.get('old'):
             svc.versions[NAME] = [('upload', data if download else OLD)]
         sync(b.exists('warm-up'))          # authorize + bucket lookup happen before the faults are armed
+    try:
+        sync(_prelude(b, case))
+    except Exception as e:      # noqa: the fault-free prelude must simply work
+        return {'outcome': 'error:prelude:' + exc_class(e), 'pos': None, 'content': None, 'value': None, 'obj': None, 'tries': 0,
+                'requests': 0, 'auths': 0, 'temps': 0, 'fired': 0}
     rules = []
     for f in case['faults']:
         r = {'op': f.get('target') or PRIMARY[(backend_kind, m)], 'kind': f['kind'], 'count': 1}
@@ -383,9 +413,10 @@ def run_local(case, root: Path):
         b.upload(NAME, data if download else OLD)
     if m == 'list':
         b.upload('data/zz/other', b'x')
+    sync(_prelude(_SyncAdapter(b), case))
     inj = LocalInjector(root, m, case['faults'], case.get('persistent', False))
     with inj.installed():
-        res = sync(_call_sync(b, case, data))
+        res = sync(_call(_SyncAdapter(b), case, data))
     p = root / NAME
     res['obj'] = p.read_bytes() if p.is_file() else None
     res['tries'] = inj.calls
@@ -396,27 +427,26 @@ def run_local(case, root: Path):
     return res
 
 
-async def _call_sync(backend, case, data):
-    class A:
-        """sync adapter presented through the awaiting driver"""
-        def __init__(self, b):
-            self.b = b
+class _SyncAdapter:
+    """the sync Local adapter presented through the awaiting driver"""
 
-        async def upload(self, *a): return self.b.upload(*a)
-        async def upload_stream(self, *a): return self.b.upload_stream(*a)
-        async def download(self, *a): return self.b.download(*a)
-        async def download_stream(self, *a): return self.b.download_stream(*a)
-        async def exists(self, *a): return self.b.exists(*a)
-        async def delete(self, *a): return self.b.delete(*a)
+    def __init__(self, b):
+        self.b = b
 
-        def list_files(self, prefix):
-            b = self.b
+    async def upload(self, *a): return self.b.upload(*a)
+    async def upload_stream(self, *a): return self.b.upload_stream(*a)
+    async def download(self, *a): return self.b.download(*a)
+    async def download_stream(self, *a): return self.b.download_stream(*a)
+    async def exists(self, *a): return self.b.exists(*a)
+    async def delete(self, *a): return self.b.delete(*a)
 
-            async def gen():
-                for x in b.list_files(prefix):
-                    yield x
-            return gen()
-    return await _call(A(backend), case, data)
+    def list_files(self, prefix):
+        b = self.b
+
+        async def gen():
+            for x in b.list_files(prefix):
+                yield x
+        return gen()
 
 
 # --------------------------------------------------------------------------- case enumeration
@@ -494,6 +524,10 @@ def random_cases(rng, f, n, chunks):
             case['old'] = True
         if method == 'download_stream' and rng.random() < 0.3:
             case['init'] = rng.randint(1, 3 * c + 2)
+        if rng.random() < 0.4:
+            case['prelude'] = [rng.choice(['upload', 'upload_stream', 'download', 'list', 'delete']) for _ in range(rng.randint(1, 4))]
+        if backend == 'b2' and method in ('upload', 'upload_stream') and rng.random() < 0.3:
+            case['faults'][rng.randrange(L)] = {'kind': rng.choice(['expire_upload_tokens', 'sick_pod']), 'target': 'upload'}
         cases.append(case)
     return cases
 
@@ -519,6 +553,42 @@ def persistent_cases(f):
     for kind in ('500', '429', 'drop', '401'):
         cases.append({'backend': 'b2', 'method': 'download', 'size': 5, 'chunk': 4, 'nested': True, 'persistent': True, 'reauth_faults': True,
                       'faults': [{'kind': '401', 'target': 'download'}, {'kind': kind, 'target': 'authorize'}]})
+    return cases
+
+
+PRELUDES = ([], ['upload'], ['upload_stream'], ['upload', 'download', 'upload'], ['upload_stream', 'list', 'delete'])
+
+
+def sequence_cases(f):
+    """Multi-operation scenarios: earlier fault-free operations of the same client, then the faulted one.
+    (a) B2 faults bound to an upload URL / token pair (tokens expire, the pod gets sick) - one such event is one
+        transient fault: a fresh b2_get_upload_url masks it;
+    (b) the ordinary fault kinds after a prelude, for every backend."""
+    cases = []
+    c = 4
+    for method in ('upload', 'upload_stream'):
+        for prelude in PRELUDES:
+            for kind in ('expire_upload_tokens', 'sick_pod'):
+                for size in (0, c + 1):
+                    cases.append({'backend': 'b2', 'method': method, 'size': size, 'chunk': c, 'prelude': list(prelude),
+                                  'faults': [{'kind': kind, 'target': 'upload'}]})
+            # both events in a row, then an ordinary fault: still within the budget
+            cases.append({'backend': 'b2', 'method': method, 'size': c + 1, 'chunk': c, 'prelude': list(prelude),
+                          'faults': [{'kind': 'sick_pod', 'target': 'upload'}, {'kind': 'expire_upload_tokens', 'target': 'upload'}, {'kind': '429'}]})
+    for backend in ('s3c', 'b2', 'local'):
+        mt = f[{'s3c': 's3_max_tries', 'b2': 'b2_max_tries', 'local': 'local_max_tries'}[backend]]
+        for method in ('upload_stream', 'download_stream', 'upload', 'download', 'delete'):
+            size = c + 1
+            if backend == 'local':
+                positions = [{'target': t, 'kind': 'oserror', **({'after': k} if k is not None else {})} for t, k in local_targets(method, size, c)]
+            else:
+                positions = [{'kind': kd, **({'after': k} if k is not None else {})}
+                             for kd, k in http_kinds(method, size, c, method in ('download', 'download_stream')) if kd in ('drop', '500', '429', '401', 'drop_body')]
+            for prelude in PRELUDES[1:4]:
+                for pos in positions:
+                    for L in (1, mt - 1, mt):
+                        cases.append({'backend': backend, 'method': method, 'size': size, 'chunk': c, 'prelude': list(prelude),
+                                      'faults': [dict(pos) for _ in range(L)]})
     return cases
 
 
@@ -589,7 +659,7 @@ def oracle(case, res, f):
             bad.append((f'download_stream left {res["content"]!r} at position {res["pos"]}; object is {data!r}', 'wrong_bytes'))
         if m == 'exists' and res['value'] is not True:
             bad.append(('exists answered False for an existing object', 'wrong_bytes'))
-        if m == 'list' and res['value'] != sorted(['data/ab/obj'] + (['data/zz/other'] if case['backend'] == 'local' else [])):
+        if m == 'list' and [x for x in res['value'] if not x.startswith('data/pre/')] != sorted(['data/ab/obj'] + (['data/zz/other'] if case['backend'] == 'local' else [])):
             bad.append((f'list_files returned {res["value"]} although a fault occurred', 'wrong_listing'))
         if m == 'delete' and res['obj'] is not None:
             bad.append(('delete returned normally but the object is still there', 'wrong_bytes'))
@@ -647,13 +717,14 @@ def check_cases(cases, rep: Report, scratch: Path, f, with_model=True):
             res = execute(case, scratch)
             results.append(res)
             L = len(case['faults'])
-            rep.case((case['backend'], case['method'], case['size'], case['chunk'], case.get('old'), case.get('init'), case.get('piece'),
+            rep.case((case['backend'], case['method'], case['size'], case['chunk'], case.get('old'), case.get('init'), case.get('piece'), case.get('prelude'),
                       [sorted(x.items()) for x in case['faults']]), nontrivial=res['fired'] >= 1)
             rep.count(f'{case["backend"]}:{case["method"]}')
             rep.count('run_length=' + (str(L) if L <= 6 else '>6'))
             rep.count('fault_kind=' + case['faults'][0]['kind'] + (':' + case['faults'][0]['target'] if 'target' in case['faults'][0] else ''))
             rep.count('outcome=' + res['outcome'].split(':')[0] + ('' if res['outcome'] == 'ok' else ':' + res['outcome'].split(':', 1)[1]))
             rep.count('size=' + str(case['size']))
+            rep.count('prelude_ops=' + str(len(case.get('prelude', []))))
             if len(rep.samples) < 4 and res['fired'] >= 2:
                 rep.sample({'case': case, 'outcome': res['outcome'], 'tries': res['tries'], 'stream_pos': res['pos']})
             for what, kind in oracle(case, res, f):
@@ -700,7 +771,7 @@ def list_fault_probe(rep: Report, scratch: Path, f):
 RULE = ('case = (backend, method, payload size, chunk size, fault sequence): every fault position (before the first byte, after k '
         'stream chunks for every k, after the last) x kind (OSError per entry point; connection refused / dropped in mid-transfer, '
         '500, 503, 429+retry-after, 401, 403, 500 after the effect) x run length 1..max_tries+1, payloads 0, 1, chunk-1, chunk, '
-        'chunk+1, 3*chunk, plus random mixed sequences and B2 nested-endpoint / expired-token cases; non-trivial = at least one fault fired; '
+        'chunk+1, 3*chunk, plus random mixed sequences, multi-operation scenarios (fault-free prelude of the same client, then the faulted operation; B2 upload URL / token pairs expiring or their pod getting sick) and B2 nested-endpoint / expired-token cases; non-trivial = at least one fault fired; '
         'distinct = distinct case tuples')
 
 
@@ -713,7 +784,7 @@ def run(ctx) -> Report:
     rep = Report(rule=RULE)
     f = facts()
     chunks = [4, 2] if ctx.tier == 'quick' else [4, 1, 2, 7]
-    cases = corpus() + enumerate_cases(f, chunks, ctx.tier != 'quick')
+    cases = corpus() + sequence_cases(f) + enumerate_cases(f, chunks, ctx.tier != 'quick')
     cases += random_cases(ctx.rng, f, ctx.scale(600, 8000), [1, 2, 3, 4, 7] if ctx.tier != 'quick' else [2, 4, 5])
     cases += nested_cases(f) + persistent_cases(f)
     check_cases(cases, rep, ctx.scratch, f)
@@ -729,7 +800,7 @@ def search(ctx, broken) -> Report:
     rep = Report(rule=RULE)
     f = facts()
     seeds = [b['case']['case'] for b in broken if isinstance(b.get('case'), dict) and isinstance(b['case'].get('case'), dict)]
-    cases = seeds + enumerate_cases(f, [4, 1, 3], True) + random_cases(ctx.rng, f, 3000, [1, 2, 3, 4, 7]) + nested_cases(f) + persistent_cases(f)
+    cases = seeds + enumerate_cases(f, [4, 1, 3], True) + random_cases(ctx.rng, f, 3000, [1, 2, 3, 4, 7]) + nested_cases(f) + persistent_cases(f) + sequence_cases(f)
     check_cases(cases, rep, ctx.scratch, f, with_model=False)
     list_fault_probe(rep, ctx.scratch, f)
     return rep
